@@ -16,8 +16,8 @@ ASA_FAMS = {"F4N": {"MaxLen": 3}, "F9": {"MaxLen": 2}, "F1L": {"MaxLen": 5}, "F1
 
 PLAN = {
     "C04": dict(mode="conv", tags={"EQUIV", "FIXPOINT"},
-                quick=[("nsx", "N1", 6000), ("nsx", "N2", None), ("nsx", "N3", None), ("nsx", "N4", 4000), ("nsx", "N5", None), ("nsx", "N6", 3000)],
-                thorough=[("nsx", "N1", None), ("nsx", "N2", None), ("nsx", "N3", None), ("nsx", "N4", None), ("nsx", "N5", None), ("nsx", "N6", None)]),
+                quick=[("nsx", "N1", 6000), ("nsx", "N2", None), ("nsx", "N3", None), ("nsx", "N4", 4000), ("nsx", "N5", None), ("nsx", "N6", 3000), ("nsx", "N7", None)],
+                thorough=[("nsx", "N1", None), ("nsx", "N2", None), ("nsx", "N3", None), ("nsx", "N4", None), ("nsx", "N5", None), ("nsx", "N6", None), ("nsx", "N7", None)]),
     "C03": dict(mode="conv", tags={"EQUIV", "FIXPOINT"},
                 quick=[("panos", "P1", None), ("panos", "P2", None), ("panos", "P3", None), ("panos", "P7", None), ("panos", "P4", None), ("panos", "P8", 5000), ("panos", "P9", 3000)],
                 thorough=[("panos", "P1", None), ("panos", "P2", None), ("panos", "P3", None), ("panos", "P7", None), ("panos", "P4", None), ("panos", "P8", None), ("panos", "P9", None)]),
@@ -32,13 +32,13 @@ PLAN = {
     "C16": dict(mode="det", tags={"C16"}, spec="DetTrace", level="exploration",
                 quick=[("asa", "F9", 5000), ("asa", "F2", 2000), ("asa", "F7", 1000), ("ios", "F8", 1000),
                        ("ios", "F3", 1000), ("ios", "V1L", 800), ("panos", "P2", 1500), ("panos", "P4", 1200), ("linux", "I1", 500), ("nsx", "N1", 1500), ("nsx", "N3", None),
-                       ("asav", "F5", 800), ("asav", "F6L", 480), ("asav", "F6P", 300), ("asav", "F5U", 336),
+                       ("asav", "F5", 800), ("asav", "F6L", 480), ("asav", "F6P", 300), ("asav", "F5U", 336), ("asav", "F5N", None),
                        ("panos", "P8", 600), ("asa", "F3", 600), ("asa", "F4", 500), ("asa", "F4N", None), ("asa", "F2S", 500), ("ios", "F4", 500), ("ios", "F4M", None), ("ios", "F4N", None),
                        ("linux", "R1", 500)],
                 thorough=[("asa", "F9", None), ("asa", "F2", 30000), ("asa", "F7", 10000), ("asa", "F3", 5000),
                           ("ios", "F8", 20000), ("ios", "F3", 10000), ("ios", "F7", 5000), ("ios", "V1L", 8000),
                           ("panos", "P2", None), ("panos", "P4", None), ("linux", "I1", 5000), ("nsx", "N1", None), ("nsx", "N3", None),
-                          ("asav", "F5", 8000), ("asav", "F6L", 8000), ("asav", "F6P", None), ("asav", "F5U", 5600),
+                          ("asav", "F5", 8000), ("asav", "F6L", 8000), ("asav", "F6P", None), ("asav", "F5U", 5600), ("asav", "F5N", None),
                           ("panos", "P8", None), ("asa", "F4", None), ("asa", "F4N", None), ("asa", "F2S", 8000), ("ios", "F4", None), ("ios", "F4M", None), ("ios", "F4N", None), ("linux", "R1", None)]),
     "C02": dict(mode="conv", tags={"EQUIV", "FIXPOINT"},
                 quick=[("ios", "F1L", 4000), ("ios", "F1", 5000), ("ios", "F8", 5000), ("ios", "F3", 3000),
@@ -47,44 +47,44 @@ PLAN = {
                           ("ios", "F4", None), ("ios", "F4M", None), ("ios", "F4N", None), ("ios", "F7", None), ("ios", "V1L", None), ("ios", "V2", None), ("ios", "S1", None)]),
     "C01": dict(mode="conv", tags={"EQUIV", "FIXPOINT"},
                 quick=[("asa", "F1L", 3000), ("asa", "F1", 4000), ("asa", "F2", 6000), ("asa", "F2S", 3000), ("asa", "S1", None), ("asa", "F3", 2000),
-                       ("asa", "F4", 1500), ("asa", "F4N", None), ("asa", "F7", 2000), ("asav", "F5", 4000), ("asav", "F6L", 2400), ("asav", "F6P", 1200), ("asav", "F5U", 1680)],
+                       ("asa", "F4", 1500), ("asa", "F4N", None), ("asa", "F7", 2000), ("asav", "F5", 4000), ("asav", "F6L", 2400), ("asav", "F6P", 1200), ("asav", "F5U", 1680), ("asav", "F5N", None)],
                 thorough=[("asa", "F1L", None), ("asa", "F1", None), ("asa", "F2", None), ("asa", "F2S", None), ("asa", "S1", None), ("asa", "F3", 30000),
-                          ("asa", "F4", None), ("asa", "F4N", None), ("asa", "F7", 30000), ("asav", "F5", None), ("asav", "F6L", None), ("asav", "F6P", None), ("asav", "F5U", None)]),
+                          ("asa", "F4", None), ("asa", "F4N", None), ("asa", "F7", 30000), ("asav", "F5", None), ("asav", "F6L", None), ("asav", "F6P", None), ("asav", "F5U", None), ("asav", "F5N", None)]),
     "C07": dict(mode="conv", tags={"C07"},
-                quick=[("asav", "F5", 3000), ("asav", "F6L", 1800), ("asav", "F6P", 600), ("asav", "F5U", 1260), ("asa", "F7", 6000), ("asa", "F2", 1500), ("asa", "F3", 1000), ("asa", "F4", 1000), ("asa", "F4N", None),
+                quick=[("asav", "F5", 3000), ("asav", "F6L", 1800), ("asav", "F6P", 600), ("asav", "F5U", 1260), ("asav", "F5N", None), ("asa", "F7", 6000), ("asa", "F2", 1500), ("asa", "F3", 1000), ("asa", "F4", 1000), ("asa", "F4N", None),
                        ("ios", "F7", 5000), ("ios", "F3", 1500), ("ios", "F4", 1500), ("ios", "F4M", None), ("ios", "F4N", None), ("ios", "V1L", 1500), ("ios", "V2", 600), ("panos", "P7", None), ("panos", "P8", 2500),
                        ("panos", "P2", 1500), ("nsx", "N1", 1500), ("nsx", "N2", None)],
-                thorough=[("asav", "F5", None), ("asav", "F6L", None), ("asav", "F6P", None), ("asav", "F5U", None), ("asa", "F7", None), ("asa", "F2", 30000), ("asa", "F3", 30000), ("asa", "F4", None), ("asa", "F4N", None),
+                thorough=[("asav", "F5", None), ("asav", "F6L", None), ("asav", "F6P", None), ("asav", "F5U", None), ("asav", "F5N", None), ("asa", "F7", None), ("asa", "F2", 30000), ("asa", "F3", 30000), ("asa", "F4", None), ("asa", "F4N", None),
                           ("ios", "F7", None), ("ios", "F3", None), ("ios", "F4", None), ("ios", "F4M", None), ("ios", "F4N", None), ("ios", "V1L", None), ("ios", "V2", None), ("panos", "P7", None), ("panos", "P8", None),
                           ("panos", "P2", None), ("panos", "P1", None), ("nsx", "N1", None), ("nsx", "N2", None)]),
     "C08": dict(mode="conv", tags={"C08"},
-                quick=[("asav", "F5", 4000), ("asav", "F6L", 2400), ("asav", "F6P", 1200), ("asav", "F5U", 1680), ("asa", "F1", 2000), ("asa", "F2", 6000), ("asa", "F2S", 2000), ("asa", "F3", 2000),
+                quick=[("asav", "F5", 4000), ("asav", "F6L", 2400), ("asav", "F6P", 1200), ("asav", "F5U", 1680), ("asav", "F5N", None), ("asa", "F1", 2000), ("asa", "F2", 6000), ("asa", "F2S", 2000), ("asa", "F3", 2000),
                        ("asa", "F4", 1000), ("asa", "F4N", None), ("asa", "F7", 2000),
                        ("ios", "F1", 2500), ("ios", "F8", 2500), ("ios", "F3", 2000), ("ios", "F4", 1000), ("ios", "F4M", None), ("ios", "F4N", None),
                        ("ios", "F7", 1500), ("ios", "V1L", 1500), ("panos", "P1", None), ("panos", "P2", 2500), ("panos", "P3", None), ("panos", "P8", 2500), ("panos", "P9", 1500),
-                       ("nsx", "N1", 3000), ("nsx", "N2", None), ("nsx", "N3", None), ("nsx", "N6", 1500)],
-                thorough=[("asav", "F5", None), ("asav", "F6L", None), ("asav", "F6P", None), ("asav", "F5U", None), ("asa", "F1", None), ("asa", "F2", None), ("asa", "F2S", None), ("asa", "F3", 40000),
+                       ("nsx", "N1", 3000), ("nsx", "N2", None), ("nsx", "N3", None), ("nsx", "N6", 1500), ("nsx", "N7", 600)],
+                thorough=[("asav", "F5", None), ("asav", "F6L", None), ("asav", "F6P", None), ("asav", "F5U", None), ("asav", "F5N", None), ("asa", "F1", None), ("asa", "F2", None), ("asa", "F2S", None), ("asa", "F3", 40000),
                           ("asa", "F4", None), ("asa", "F4N", None), ("asa", "F7", 40000),
                           ("ios", "F1", None), ("ios", "F8", 60000), ("ios", "F3", None), ("ios", "F4", None), ("ios", "F4M", None), ("ios", "F4N", None),
                           ("ios", "F7", None), ("ios", "V1L", None), ("panos", "P1", None), ("panos", "P2", None), ("panos", "P3", None), ("panos", "P8", None), ("panos", "P9", None),
-                          ("nsx", "N1", None), ("nsx", "N2", None), ("nsx", "N3", None), ("nsx", "N6", None)]),
+                          ("nsx", "N1", None), ("nsx", "N2", None), ("nsx", "N3", None), ("nsx", "N6", None), ("nsx", "N7", None)]),
     "C14": dict(mode="conv", tags={"C14"},
                 quick=[("asa", "F1L", 6000), ("ios", "F1L", 6000), ("asa", "F1", 6000), ("asa", "F4", None), ("asa", "F4N", None), ("asa", "F3", 1500),
                        ("ios", "F1", 6000), ("ios", "F4", 4000), ("ios", "F4M", None), ("ios", "F4N", None), ("ios", "F3", 1500), ("linux", "R1", 8000)],
                 thorough=[("asa", "F1L", None), ("ios", "F1L", None), ("asa", "F1", None), ("asa", "F4", None), ("asa", "F4N", None), ("asa", "F3", 40000),
                           ("ios", "F1", None), ("ios", "F4", None), ("ios", "F4M", None), ("ios", "F4N", None), ("ios", "F3", None), ("linux", "R1", None)]),
     "C10": dict(mode="resume", tags={"EQUIV", "FIXPOINT", "C08"},
-                quick=[("asav", "F5", 600), ("asav", "F6L", 360), ("asav", "F6P", 400), ("asav", "F5U", 300), ("asa", "F1", 500), ("asa", "F2", 1200), ("asa", "F2S", 300), ("asa", "F3", 400),
+                quick=[("asav", "F5", 600), ("asav", "F6L", 360), ("asav", "F6P", 400), ("asav", "F5U", 300), ("asav", "F5N", None), ("asa", "F1", 500), ("asa", "F2", 1200), ("asa", "F2S", 300), ("asa", "F3", 400),
                        ("asa", "F4", 400), ("asa", "F4N", None), ("asa", "F7", 400),
                        ("ios", "F1", 500), ("ios", "F8", 500), ("ios", "F3", 400), ("ios", "F4", 400), ("ios", "F4M", None), ("ios", "F4N", None), ("ios", "V1L", 300),
                        ("linux", "R1", 600), ("linux", "I2", 200), ("panos", "P1", 300), ("panos", "P2", 500),
-                       ("panos", "P3", 300), ("panos", "P8", 300), ("panos", "P9", 300), ("nsx", "N1", 500), ("nsx", "N2", 200), ("nsx", "N6", 300)],
-                thorough=[("asav", "F5", 8000), ("asav", "F6L", 4800), ("asav", "F6P", None), ("asav", "F5U", 3360), ("asa", "F1", 8000), ("asa", "F2", 20000), ("asa", "F2S", 4000), ("asa", "F3", 6000),
+                       ("panos", "P3", 300), ("panos", "P8", 300), ("panos", "P9", 300), ("nsx", "N1", 500), ("nsx", "N2", 200), ("nsx", "N6", 300), ("nsx", "N7", 300)],
+                thorough=[("asav", "F5", 8000), ("asav", "F6L", 4800), ("asav", "F6P", None), ("asav", "F5U", 3360), ("asav", "F5N", None), ("asa", "F1", 8000), ("asa", "F2", 20000), ("asa", "F2S", 4000), ("asa", "F3", 6000),
                           ("asa", "F4", None), ("asa", "F4N", None), ("asa", "F7", 8000),
                           ("ios", "F1", 8000), ("ios", "F8", 8000), ("ios", "F3", 6000), ("ios", "F4", 6000), ("ios", "F4M", None), ("ios", "F4N", None), ("ios", "V1L", 5000),
                           ("linux", "R1", None), ("linux", "I1", 5000), ("linux", "I2", None),
                           ("panos", "P1", None), ("panos", "P2", None), ("panos", "P3", None), ("panos", "P8", 4000), ("panos", "P9", None),
-                          ("nsx", "N1", 6000), ("nsx", "N2", None), ("nsx", "N4", 4000), ("nsx", "N6", None)]),
+                          ("nsx", "N1", 6000), ("nsx", "N2", None), ("nsx", "N4", 4000), ("nsx", "N6", None), ("nsx", "N7", None)]),
 }
 
 IOS_FAMS = {"F4N": {"MaxLen": 3}, "F4M": {"MaxLen": 3}, "V2": {"MaxLen": 2}, "V1L": {"MaxLen": 3}, "F1L": {"MaxLen": 5}, "F1": {"MaxLen": 3}, "F3": {"MaxLen": 3}, "F4": {"MaxLen": 3}, "F7": {"MaxLen": 2},
@@ -98,8 +98,8 @@ IOS_FAMS["M1"] = {"MaxLen": 3}
 ASA_FAMS["M2L"] = {"MaxLen": 3}
 IOS_FAMS["M2L"] = {"MaxLen": 3}
 PANOS_FAMS = {"M3": {"MaxLen": 3}, "P9": {"MaxLen": 2}, "P8": {"MaxLen": 2}, "P4": {"MaxLen": 2}, "M2": {"MaxLen": 3}, "M1": {"MaxLen": 3}, "P1": {"MaxLen": 3}, "P2": {"MaxLen": 2}, "P3": {"MaxLen": 2}, "P7": {"MaxLen": 2}}
-NSX_FAMS = {"N6": {"MaxLen": 3}, "N5": {"MaxLen": 3}, "N4": {"MaxLen": 3}, "M2": {"MaxLen": 3}, "M1": {"MaxLen": 3}, "N1": {"MaxLen": 3}, "N2": {"MaxLen": 2}, "N3": {"MaxLen": 3}}
-FAM_CONSTS = {"asav": {"F6P": {"MaxLen": 3}, "F5": {"MaxLen": 3}, "F6L": {"MaxLen": 3}, "F5U": {"MaxLen": 3}, "M6": {"MaxLen": 3}}, "asa": ASA_FAMS, "ios": IOS_FAMS, "linux": LINUX_FAMS, "panos": PANOS_FAMS, "nsx": NSX_FAMS}
+NSX_FAMS = {"N7": {"MaxLen": 3}, "N6": {"MaxLen": 3}, "N5": {"MaxLen": 3}, "N4": {"MaxLen": 3}, "M2": {"MaxLen": 3}, "M1": {"MaxLen": 3}, "N1": {"MaxLen": 3}, "N2": {"MaxLen": 2}, "N3": {"MaxLen": 3}}
+FAM_CONSTS = {"asav": {"F5N": {"MaxLen": 3}, "F6P": {"MaxLen": 3}, "F5": {"MaxLen": 3}, "F6L": {"MaxLen": 3}, "F5U": {"MaxLen": 3}, "M6": {"MaxLen": 3}}, "asa": ASA_FAMS, "ios": IOS_FAMS, "linux": LINUX_FAMS, "panos": PANOS_FAMS, "nsx": NSX_FAMS}
 
 
 def collect_cases(plan, rep):
@@ -148,9 +148,6 @@ def run(prop, tier, replay_file=None, extra=None):
     if replay_file:
         obj = json.load(open(replay_file))
         by = {obj["dialect"]: [obj["case"]]}
-        if obj.get("mode") == "merge" and P["mode"] != "merge":
-            # a merge case recorded by an `extra` hook (C03): planned in merge mode, judged against parts.merged
-            P = dict(P, mode="merge", tags=set(P["tags"]) | {"C18"})
     else:
         by = collect_cases(P[tier], rep)
     ntraces = nevents = ncases = nrej = nchanged = ntie = 0
